@@ -70,9 +70,9 @@ Fixpoint jdk_table (t : list (bytes * bytes * Z)) (spec jdk : bytes) : res bool 
 Record pom_case := mkCase { c_jdk : bytes; c_os : os_t; c_root : project; c_repo : list project;
                             c_table : list (bytes * bytes * Z) }.
 
-Definition dec_case (a : sx) : option pom_case :=
-  match a with
-  | SL [SL [SB jdk; SB n; SB f; SB ar; SB v]; SL (root :: others); SL tab] =>
+Definition dec_case3 (env root : sx) (others tab : list sx) : option pom_case :=
+  match env with
+  | SL [SB jdk; SB n; SB f; SB ar; SB v] =>
       obind (dec_project root) (fun r =>
       obind (omap dec_project others) (fun rs =>
       obind (omap dec_jdk_entry tab) (fun t =>
@@ -80,9 +80,33 @@ Definition dec_case (a : sx) : option pom_case :=
   | _ => None
   end.
 
+(* an optional fourth element chooses how the Go harness writes the XML text (empty element,
+   self-closing, white space, CDATA ...); the decoded record, the input of the model, is the same *)
+Definition dec_case (a : sx) : option pom_case :=
+  match a with
+  | SL [env; SL (root :: others); SL tab] => dec_case3 env root others tab
+  | SL [env; SL (root :: others); SL tab; SI _] => dec_case3 env root others tab
+  | _ => None
+  end.
+
 Definition sx_dep (d : dependency) : sx :=
   SL [SB (d_group d); SB (d_artifact d); SB (d_version d); SB (d_type d); SB (d_classifier d);
       SB (d_scope d); SB (d_optional d); SL (map (fun e => SL [SB (fst e); SB (snd e)]) (d_excl d))].
+
+Definition sx_pairs (l : list (bytes * bytes)) : sx := SL (map (fun e => SL [SB (fst e); SB (snd e)]) l).
+
+Definition sx_profile (pf : profile) : sx :=
+  let a := pf_act pf in
+  let o := act_os a in
+  SL [SB (pf_id pf);
+      SL [SB (act_default a); SB (act_jdk a); SL [SB (os_name o); SB (os_family o); SB (os_arch o); SB (os_version o)];
+          SL [SB (act_pname a); SB (act_pvalue a)]];
+      sx_pairs (pf_props pf); SL (map sx_dep (pf_deps pf)); SL (map sx_dep (pf_mgmt pf))].
+
+Definition sx_project (p : project) : sx :=
+  SL [SB (p_group p); SB (p_artifact p); SB (p_version p); SL [SB (par_group p); SB (par_artifact p); SB (par_version p)];
+      SB (p_packaging p); sx_pairs (p_props p); SL (map sx_dep (p_deps p)); SL (map sx_dep (p_mgmt p));
+      SL (map sx_profile (p_profiles p))].
 
 Definition sx_lists (r : list dependency * list dependency) : sx :=
   SL [SB sym_ok; SL (map sx_dep (fst r)); SL (map sx_dep (snd r))].
@@ -109,6 +133,13 @@ Definition run_Pom (kind : bytes) (a : sx) : option sx :=
               | MavenModelSpec.SErr => SL [SB sym_err]
               | MavenModelSpec.SUnsupported w => SL [SB sym_unsupported; SI (Z.of_N w)]
               end
+          | None => badcase
+          end)
+  else if bytes_eqb kind [112;111;109;100;101;99;111;100;101] (* pomdecode *) then
+    (* Decoding is outside the model; what it has to deliver is the record the case describes:
+       every text trimmed, a property written without text present with the empty value. *)
+    Some (match dec_case a with
+          | Some c => SL [SB sym_ok; SL (map sx_project (c_root c :: c_repo c))]
           | None => badcase
           end)
   else if bytes_eqb kind [105;110;116;101;114;112] (* interp *) then
